@@ -163,6 +163,8 @@ func runTunnelPlan(t *testing.T, planAny any, ctl Ctl) *Result {
 				}
 				if cl1, cln := e1.Hdr.Get("Content-Length"), en.Hdr.Get("Content-Length"); cl1 != cln && (cl1 != "" && cln != "") {
 					res.violate("C10.c", "content-length-differs", "%s: Content-Length %q on the shared tunnel, %q on its own tunnel [%s]", desc, cl1, cln, pd)
+				} else if e1.CL != en.CL || !eqStrings(e1.TE, en.TE) {
+					res.violate("C10.c", "framing-differs", "%s: declared length %d, transfer coding %v on the shared tunnel; length %d, coding %v on its own tunnel [%s]", desc, e1.CL, e1.TE, en.CL, en.TE, pd)
 				}
 				if !bytes.Equal(e1.Body, en.Body) {
 					res.violate("C10.c", "body-differs", "%s: %d body bytes on the shared tunnel, %d on its own tunnel (first difference at %d) [%s]", desc, len(e1.Body), len(en.Body), firstDiff(e1.Body, en.Body), pd)
